@@ -220,11 +220,8 @@ def run_connection(proxy, conn, tls_client_auth=True, auth_settings=None, slugs=
             try:
                 s._handle_message_loop()
             except kexc.ConnectionClosed:
-                end = 'closed'
-                # bytes received for an incomplete frame are dropped; anything sent now would be a stray response
-                stray = len(conn.sent) - sent0
-                tail_recv = conn.recv_sizes[cur.get('recv0', 0):] if 'frame' not in cur else conn.recv_sizes[cur.get('recv0', 0):]
-                return {'frames': frames, 'end': end, 'stray_sent': stray, 'tail_recv': tail_recv,
+                # bytes received for an incomplete frame are dropped; anything sent or executed now is a stray
+                return {'frames': frames, 'end': 'closed', 'stray_sent': len(conn.sent) - sent0,
                         'tail_calls': len(proxy.calls) - calls0}
             except Exception as e:          # KmipSession.run logs this and goes on with the next message
                 escaped = type(e).__name__
@@ -238,7 +235,7 @@ def run_connection(proxy, conn, tls_client_auth=True, auth_settings=None, slugs=
                            'recv_sizes': conn.recv_sizes[cur['recv0']:cur['recv1']], 'escaped': escaped,
                            'engine': calls[0] if calls else None, 'ncalls': len(calls),
                            'dump_before': before, 'dump_after': after})
-        return {'frames': frames, 'end': end, 'stray_sent': 0, 'tail_recv': [], 'tail_calls': 0}
+        return {'frames': frames, 'end': end, 'stray_sent': 0, 'tail_calls': 0}
     finally:
         slugs_mod.requests.get = old_get
 
@@ -249,6 +246,129 @@ def encode_request(req, version=(1, 2)):
     return bytes(s.buffer)
 
 
+# ---------------------------------------------------------------------------------------------- specs -> runs -> Coq cases
+GOOD_CERT = (('alice',), 'client')
+
+
+def default_spec(stream, sizes=None, cert=GOOD_CERT, tls=True, plugins=(), ts=1600000000):
+    """A connection script.  cert: None | (tuple of CNs, eku kind); plugins: list of dicts
+    {'name', 'enabled' (str|None), 'url' (str|None|int), 'user': ('unreachable',)|('status', c),
+     'groups': ('unreachable',)|('status', c, body)}, body = {'groups': [...]} | {} | 'badjson'."""
+    return {'stream': bytes(stream), 'sizes': list(sizes) if sizes is not None else ([len(stream)] if stream else []),
+            'cert': cert, 'tls': tls, 'plugins': list(plugins), 'ts': ts}
+
+
+def run_spec(proxy, spec, dumps=True):
+    """Run one scripted connection against the real session; returns (obs, conn)."""
+    cert = make_cert(list(spec['cert'][0]), spec['cert'][1]) if spec['cert'] is not None else None
+    conn = FakeConn(spec['stream'], spec['sizes'], cert)
+    settings, script = [], {}
+    for p in spec['plugins']:
+        conf = {}
+        if p.get('enabled') is not None:
+            conf['enabled'] = p['enabled']
+        if p.get('url') is not None:
+            conf['url'] = p['url']
+        settings.append((p['name'], conf))
+        if isinstance(p.get('url'), str):
+            base = p['url'] if p['url'].endswith('/') else p['url'] + '/'
+            script[base] = {'user': p['user'], 'groups': p['groups']}
+    proxy.eng.clock.t = spec['ts']
+    stub = SlugsStub(script)
+    obs = run_connection(proxy, conn, tls_client_auth=spec['tls'], auth_settings=settings, slugs=stub, dumps=dumps)
+    obs['recv_sizes'] = list(conn.recv_sizes)
+    obs['slugs_calls'] = list(stub.calls)
+    obs['parse'] = [real_parse(f['frame']) if f['frame'] is not None else None for f in obs['frames']]
+    return obs, conn
+
+
+def _cq():
+    from vlib import coqprint
+    return coqprint
+
+
+def coq_hex(b):
+    return '"%s"' % bytes(b).hex()
+
+
+def coq_cert(cert):
+    cq = _cq()
+    if cert is None:
+        return 'None'
+    cns, eku = cert
+    k = {'absent': 'EkuAbsent', 'server': 'EkuNoClient', 'client': 'EkuClient', 'both': 'EkuClient'}[eku]
+    return '(Some {| c_cns := %s; c_eku := %s |})' % (cq.lst(cns, cq.string), k)
+
+
+def coq_groups(g):
+    cq = _cq()
+    return cq.option(g, lambda xs: cq.lst(xs, cq.string))
+
+
+def coq_plugin(p):
+    cq = _cq()
+    url = 'UrlAbsent' if p.get('url') is None else ('UrlString' if isinstance(p['url'], str) else 'UrlNotString')
+    u = p.get('user', ('unreachable',))
+    g = p.get('groups', ('unreachable',))
+    user = 'UUnreachable' if u[0] == 'unreachable' else '(UStatus %s)' % cq.z(u[1])
+    if g[0] == 'unreachable':
+        grp = 'GUnreachable'
+    else:
+        body = g[2] if len(g) > 2 else {}
+        b = 'GBadJson' if body == 'badjson' else '(GJson %s)' % coq_groups(body.get('groups'))
+        grp = '(GStatus %s %s)' % (cq.z(g[1]), b)
+    return '{| p_name := %s; p_enabled_text := %s; p_url := %s; p_user := %s; p_groups := %s |}' % (
+        cq.string(p['name']), cq.option(p.get('enabled'), cq.string), url, user, grp)
+
+
+def coq_identity(cred):
+    cq = _cq()
+    if cred is None:
+        return 'None'
+    user, groups = cred
+    return '(Some (%s, %s))' % (cq.string(user), coq_groups(groups))
+
+
+def coq_engine_result(rec):
+    cq = _cq()
+    if rec['kind'] == 'resp':
+        enc = 'None' if rec['bytes'] is None else '(Some %s)' % coq_hex(rec['bytes'])
+        return '(KResp %s %s (%s, %s))' % (enc, cq.option(rec['max_size'], cq.z), cq.z(rec['version'][0]), cq.z(rec['version'][1]))
+    if rec['kind'] == 'kmiperr':
+        return '(KKmipErr %s %s)' % (cq.z(rec['reason'].value), '[' + ';'.join(str(ord(ch)) for ch in rec['message']) + ']%Z')
+    return 'KCrash'
+
+
+def coq_case(spec, obs, proxy_calls):
+    """The kcase term for Session/SessionCases.v; raises ValueError when something cannot be printed
+    (then the caller must treat the case as a disagreement, not skip it)."""
+    cq = _cq()
+    pos, chunks = 0, []
+    for n in spec['sizes']:
+        chunks.append(coq_hex(spec['stream'][pos:pos + n]))
+        pos += n
+    frames = [f for f in obs['frames']]
+    if any(f['frame'] is None for f in frames):
+        raise ValueError('an exception left _receive_request')
+    cfg = '{| tls_client_auth := %s; plugins := %s; peer := %s; now := %s |}' % (
+        cq.boolean(spec['tls']), cq.lst(spec['plugins'], coq_plugin), coq_cert(spec['cert']), cq.z(spec['ts']))
+    steps = []
+    for f in frames:
+        steps.append('{| o_sent := %s; o_call := %s; o_ncalls := %s; o_escaped := %s; o_store_changed := %s |}' % (
+            cq.lst(f['sent'], coq_hex), coq_identity(f['engine']['credential'] if f['engine'] else None),
+            cq.z(f['ncalls']), cq.boolean(f['escaped'] is not None), cq.boolean(f['dump_before'] != f['dump_after'])))
+    parse = cq.lst(obs['parse'], lambda v: cq.option(v, lambda x: '(%s, %s)' % (cq.z(x[0]), cq.z(x[1]))))
+    return ('{| k_chunks := %s; k_cfg := %s; k_parse := %s; k_engine := %s; k_frames := %s; k_asked := %s; '
+            'k_closed := %s; k_steps := %s |}') % (
+        cq.lst(chunks, str), cfg, parse, cq.lst(proxy_calls, coq_engine_result),
+        cq.lst([f['frame'] for f in frames], coq_hex), cq.lst(obs['recv_sizes'], cq.z),
+        cq.boolean(obs['end'] == 'closed' and obs['stray_sent'] == 0 and obs['tail_calls'] == 0), cq.lst(steps, str))
+
+
+CASE_HEADER = ('From Coq Require Import String List ZArith.\nFrom PK Require Import Session.SessionCases.\n'
+               'Import ListNotations.\nOpen Scope Z_scope.\nOpen Scope string_scope.\n')
+
+
 # ---------------------------------------------------------------------------------------------- independent TTLV reader
 # Written from the KMIP specification (section 9.1 of KMIP 1.x): Tag 3 bytes (0x42xxxx standard, 0x54xxxx extension),
 # Type 1 byte, Length 4 bytes, Value padded to a multiple of 8.  No PyKMIP import is used below this line.
@@ -257,7 +377,7 @@ TAG_RESPONSE_MESSAGE, TAG_RESPONSE_HEADER, TAG_PROTOCOL_VERSION = 0x42007B, 0x42
 TAG_MAJOR, TAG_MINOR, TAG_TIME_STAMP, TAG_BATCH_COUNT, TAG_BATCH_ITEM = 0x42006A, 0x42006B, 0x420092, 0x42000D, 0x42000F
 TAG_OPERATION, TAG_UBID, TAG_RESULT_STATUS, TAG_RESULT_REASON, TAG_RESULT_MESSAGE = 0x42005C, 0x420093, 0x42007F, 0x42007E, 0x42007D
 TAG_SERVER_HASHED_PASSWORD = 0x420155
-REASON_INVALID_MESSAGE, REASON_AUTH_NOT_SUCCESSFUL, REASON_RESPONSE_TOO_LARGE, REASON_GENERAL_FAILURE = 0x04, 0x03, 0x12, 0x100
+REASON_INVALID_MESSAGE, REASON_AUTH_NOT_SUCCESSFUL, REASON_RESPONSE_TOO_LARGE, REASON_GENERAL_FAILURE = 0x04, 0x03, 0x02, 0x100
 FIXED_LEN = {T_INT: 4, T_LONG: 8, T_ENUM: 4, T_BOOL: 8, T_DATE: 8, T_INTERVAL: 4, T_DATE_EXT: 8}
 
 
